@@ -168,7 +168,7 @@ PROPS = {
     },
     "C05": {
         "id": "C05",
-        "lean_modules": ["HaqqModel.Props.C05"],
+        "lean_modules": ["HaqqModel.Props.C05", "HaqqModel.Props.C05Storage"],
         "level": "proof",
         "trusted_base": COMMON_TRUST + [
             "modelled, not verified: go-ethereum's interpreter (that every frame takes a Snapshot on entry and calls RevertToSnapshot on failure, and that all EVM-side writes go through the StateDB methods modelled here) — exercised by the real transactions of the correspondence run, not proved; the Cosmos-side effects of precompile calls are outside the journal model and are covered by the transaction-level monitors only; contract code changes are journalled like nonce changes and are not modelled separately",
@@ -177,7 +177,7 @@ PROPS = {
             "revert_restores is stated for spans without a Commit; a stateful precompile's Run() commits on entry, and for spans containing one the property is false of the code (known finding F-C05-a, Lean counterexample flush_then_revert_counterexample)",
             "every existing account is cached (Sat): caching is observationally neutral (saturate_get)",
         ],
-        "level_text": "Machine-checked proofs (Lean 4) over a model of x/evm/statedb: every journalled mutation (balance, nonce, storage, refund, log, access list, self-destruct, CreateAccount over an existing object) is exactly undone by reverting to the journal length before it, for all sequences of mutations interleaved with any number of inner snapshots, and Snapshot/RevertToSnapshot returns the identical StateDB (objects, storage, refund, logs, access list, dirty counts); a failed transaction discards its cached context; a kernel-checked counterexample shows that a Commit inside the reverted span (precompile entry) makes EVM-side writes persist. The model is tied to the real StateDB over the application's EVM keeper by an exact differential run, and real signed transactions with nested reverting frames are judged against the property on the application.",
+        "level_text": "Machine-checked proofs (Lean 4) over a model of x/evm/statedb: every journalled mutation (balance, nonce, storage, refund, log, access list, self-destruct, CreateAccount over an existing object) is exactly undone by reverting to the journal length before it, for all sequences of mutations interleaved with any number of inner snapshots, and Snapshot/RevertToSnapshot returns the identical StateDB (objects, storage, refund, logs, access list, dirty counts); a failed transaction discards its cached context; a kernel-checked counterexample shows that a Commit inside the reverted span (precompile entry) makes EVM-side writes persist. Commit's skipping of slots that hold the last committed value is modelled (Obj.base) and proved harmless while the reference values are coherent with the keeper (commit_writes_storage, basecoh_commit, basecoh_mstep). The model is tied to the real StateDB over the application's EVM keeper by an exact differential run, and real signed transactions with nested reverting frames are judged against the property on the application.",
         "level_note": "Trusted: Lean kernel; correspondence harness; the EVM interpreter's use of snapshots is exercised, not proved; Cosmos-side precompile effects are monitored, not modelled.",
         "technique": "Lean 4 proof by induction over journal entries and op sequences + differential correspondence with the real StateDB + transaction-level monitors",
         "explanation": "Journal/snapshot algebra proved for all op sequences; the real statedb.StateDB over app.EvmKeeper is driven with random journals, nested snapshots, reverts to any valid snapshot and mid-span commits and compared state-for-state with the compiled Lean driver; signed Ethereum transactions to a script-interpreting contract exercise nested frames, storage, logs, payments and staking-precompile calls inside reverted frames.",
